@@ -33,6 +33,44 @@ def _obs_trace(tr, atys, rty, universe, stored=None):
     return {"args": args, "ret": ret, "score": score, "choices": ch, "lookup_errors": errs}
 
 
+def _flatten_request(req):
+    """The constraint a (backward) request amounts to, when it is built from Update / EmptyRequest /
+    StaticRequest only; None otherwise."""
+    from genjax import ChoiceMap, EmptyRequest, StaticRequest, Update
+
+    if isinstance(req, Update):
+        return req.constraint
+    if isinstance(req, EmptyRequest):
+        return ChoiceMap.empty()
+    if isinstance(req, StaticRequest):
+        out = ChoiceMap.empty()
+        for addr, sub in req.addressed.items():
+            c = _flatten_request(sub)
+            if c is None:
+                return None
+            out = out | c.extend(*(addr if isinstance(addr, tuple) else (addr,)))
+        return out
+    if type(req).__name__ == "VectorRequest":
+        # Scan's backward request: one request per iteration, stacked along the leading axis
+        import jax
+        import jax.numpy as jnp
+
+        c = _flatten_request(req.request)
+        if c is None:
+            return None
+        leaves = jax.tree.leaves(c)
+        return c.extend(jnp.arange(leaves[0].shape[0])) if leaves else ChoiceMap.empty()
+    return None
+
+
+def _top_addrs(prog):
+    out, b = [], prog[1]
+    while b[0] == "bind":
+        out.append(b[1])
+        b = b[4]
+    return out
+
+
 def _tags_to_argdiffs(args_jax, tags):
     from genjax import Diff
 
@@ -79,6 +117,15 @@ def run_case(case):
     def J(f):
         return jax.jit(f) if jit else f
 
+    def AJ(args):
+        """Argument tuple for the real API; with case["py"] top-level integer arguments are passed as
+        Python ints (an or_else flag as a Python bool), as callers commonly do."""
+        aj = gfi.to_jax(args, ["tup", atys])
+        if case.get("py") and stored is None:
+            aj = tuple((bool(int(a)) if (k == 0 and prog[0] == "orelse") else int(a)) if t == ["int"] else a
+                       for k, (a, t) in enumerate(zip(aj, atys)))
+        return aj
+
     def check_trace(obs, tr, opname):
         """C01 / C02 on a freshly produced trace."""
         fails = []
@@ -93,6 +140,18 @@ def run_case(case):
         except Exception as e:  # noqa: BLE001
             fails.append({"prop": "C01", "why": f"assess on the trace's own choices raised {type(e).__name__}",
                           "after": opname, "msg": str(e)[:200]})
+        # C34 (vector combinators): the stacked subtrace's per-element scores add up to the score
+        if prog[0] in ("scan", "vmap") and hasattr(tr, "inner"):
+            try:
+                import jax.numpy as jnp
+
+                per = jax.vmap(lambda t: t.get_score())(tr.inner)
+                tot = gfi._to_int(jnp.sum(per))
+                if tot != obs["score"]:
+                    fails.append({"prop": "C34", "why": "score != sum of the stacked subtrace's per-element scores",
+                                  "after": opname, "score": obs["score"], "sum": tot})
+            except Exception as e:  # noqa: BLE001
+                fails.append({"prop": "C34", "why": f"stacked subtrace scores not readable: {type(e).__name__}", "after": opname})
         # C02: score is the documented joint log-density of the trace's choices
         try:
             sites, r = ref(prog, obs["args"][1:], obs["choices"])
@@ -117,14 +176,20 @@ def run_case(case):
     for op in ops:
         kind = op[0]
         fails = []
-        if cur is None and kind not in ("sim", "gen", "assess", "propose"):
+        if (cur is None and kind not in ("sim", "gen", "assess", "propose")) or (kind == "bwd" and last_bwd is None):
             results.append({"err": "no-trace"})      # an earlier operation failed: nothing to operate on
             preds.append(fails)
             continue
         try:
-            if kind == "sim":
+            if kind == "reclose":
+                # from here on the trace is handled through another closure of the same function
+                prog = op[1]
+                gf = gfi.build(prog)
+                stored = list(prog[2])
+                results.append({"ok": True})
+            elif kind == "sim":
                 _, seed, args = op
-                aj = gfi.to_jax(args, ["tup", atys])
+                aj = AJ(args)
                 tr = J(gf.simulate)(jax.random.key(seed), aj)
                 obs = _obs_trace(tr, atys, rty, universe, stored)
                 fails += check_trace(obs, tr, kind)
@@ -132,7 +197,7 @@ def run_case(case):
                 results.append({"ok": True, "tr": obs})
             elif kind == "gen":
                 _, seed, c, args = op
-                aj = gfi.to_jax(args, ["tup", atys])
+                aj = AJ(args)
                 chm = gfi.build_cmap(c, case.get("cmap_style", 0))
                 tr, w = J(gf.importance)(jax.random.key(seed), chm, aj)
                 obs = _obs_trace(tr, atys, rty, universe, stored)
@@ -153,12 +218,12 @@ def run_case(case):
                 results.append({"ok": True, "tr": obs, "w": w})
             elif kind in ("assess", "assessSelf"):
                 if kind == "assessSelf":
-                    chm, aj = cur.get_choices(), gfi.to_jax(cur_obs["args"], ["tup", atys])
+                    chm, aj = cur.get_choices(), AJ(cur_obs["args"])
                     cdict, argsv = cur_obs["choices"], cur_obs["args"]
                 else:
                     _, c, args = op
                     chm = gfi.build_cmap(c, case.get("cmap_style", 0))
-                    aj = gfi.to_jax(args, ["tup", atys])
+                    aj = AJ(args)
                     cdict, argsv = _valid_constraint(c), args
                 sc, rv = J(gf.assess)(chm, aj)
                 sc = gfi._to_int(sc)
@@ -171,23 +236,33 @@ def run_case(case):
                 except (Unspecified, Missing):
                     pass
                 results.append({"ok": True, "w": sc, "ret": rv})
-            elif kind in ("upd", "bwd", "regen"):
-                from genjax import Diff, Regenerate, Update
+            elif kind in ("upd", "bwd", "regen", "sreq"):
+                from genjax import Diff, EmptyRequest, Regenerate, StaticRequest, Update
 
                 old_obs = cur_obs
-                if kind == "upd":
+                if kind == "sreq":
+                    _, seed, entries, args, changed, tags = op
+                    aj = AJ(args)
+                    table = {}
+                    for e in entries:
+                        # keyed by the address exactly as the program writes it ("x", or ("a", "b"))
+                        table[gfi._addr(e[0])] = (Update(gfi.build_cmap(e[2], case.get("cmap_style", 0))) if e[1] == "upd"
+                                              else Regenerate(gfi.build_sel(e[2])) if e[1] == "regen" else EmptyRequest())
+                    req = StaticRequest(table)
+                    ad = _tags_to_argdiffs(aj, tags)
+                elif kind == "upd":
                     _, seed, c, args, changed, tags = op
-                    aj = gfi.to_jax(args, ["tup", atys])
+                    aj = AJ(args)
                     req = Update(gfi.build_cmap(c, case.get("cmap_style", 0)))
                     ad = _tags_to_argdiffs(aj, tags)
                 elif kind == "bwd":
                     _, seed, args, _changed, btags = op
-                    aj = gfi.to_jax(args, ["tup", atys])
+                    aj = AJ(args)
                     req = last_bwd
                     ad = _tags_to_argdiffs(aj, btags)
                 else:
-                    _, seed, selt, args = op
-                    aj = gfi.to_jax(args, ["tup", atys])
+                    _, seed, selt, args = op[:4]
+                    aj = AJ(args)
                     sel = gfi.build_sel(selt)
                     req = Regenerate(sel)
                     ad = _tags_to_argdiffs(aj, op[4] if len(op) > 4 else ["U"] * len(atys))
@@ -228,6 +303,38 @@ def run_case(case):
                 if isinstance(bwd, Update):
                     bobs, berr = gfi.observe_choices(bwd.constraint, universe)
                     res["bwd"] = bobs
+                elif kind in ("sreq", "regen"):
+                    flat = _flatten_request(bwd)
+                    if flat is not None:
+                        bobs, berr = gfi.observe_choices(flat, universe)
+                        res["bwd"] = bobs
+                    if kind == "sreq" and (not isinstance(bwd, StaticRequest) or list(bwd.addressed.keys()) != [gfi._addr(a) for a in _top_addrs(prog)]):
+                        fails.append({"prop": "C06", "why": "backward StaticRequest does not address the visited calls in order",
+                                      "keys": [str(k) for k in getattr(bwd, "addressed", {}).keys()]})
+                if kind == "sreq":
+                    # C38 / C05 / C07 per entry: updated entries hold their constraint, everything the
+                    # request does not touch keeps its value, and the weight is the score change
+                    if obs["args"] != args:
+                        fails.append({"prop": "C38", "why": "new trace does not hold the new arguments"})
+                    touched = {}
+                    for e in entries:
+                        if e[1] == "upd":
+                            for q, v in _valid_constraint(e[2]).items():
+                                touched[tuple(e[0]) + q] = v
+                    regen_sel = [(tuple(e[0]), gfi.build_sel(e[2])) for e in entries if e[1] == "regen"]
+                    for q, v in obs["choices"].items():
+                        if q in touched:
+                            if v != touched[q]:
+                                fails.append({"prop": "C38", "why": "address updated by its entry does not hold the constraint", "path": str(q)})
+                            continue
+                        sp = static_part(q)
+                        if any(sp[:len(a)] == a and bool(sl[sp[len(a):]]) for a, sl in regen_sel):
+                            continue
+                        if q in old_obs["choices"] and v != old_obs["choices"][q]:
+                            fails.append({"prop": "C38", "why": "a choice no entry touches changed", "path": str(q)})
+                    if set(obs["choices"]) == set(old_obs["choices"]) and w != obs["score"] - old_obs["score"]:
+                        fails.append({"prop": "C38", "why": "StaticRequest weight != new score - old score", "w": w,
+                                      "want": obs["score"] - old_obs["score"]})
                 if kind == "upd":
                     vc = _valid_constraint(c)
                     if obs["args"] != args:
@@ -306,7 +413,7 @@ def run_case(case):
                 results.append(res)
             elif kind == "propose":
                 _, seed, args = op
-                aj = gfi.to_jax(args, ["tup", atys])
+                aj = AJ(args)
                 chm, sc, rv = J(gf.propose)(jax.random.key(seed), aj)
                 sc = gfi._to_int(sc)
                 rv = gfi.canon_val(gfi.from_jax(rv, rty))
@@ -321,7 +428,7 @@ def run_case(case):
                 from genjax import Diff, EmptyRequest, Update
 
                 _, seed, args, tags = op
-                aj = gfi.to_jax(args, ["tup", atys])
+                aj = AJ(args)
                 ad = _tags_to_argdiffs(aj, tags)
                 old_obs = cur_obs
                 tr, w, rd, bwd = EmptyRequest().edit(jax.random.key(seed), cur, ad)
